@@ -273,6 +273,8 @@ def wire(prop, tier, seed, replay, no_evidence=False):
         c = []
         if prop in ("C01", "C02"):
             c.append("%s/drive-codec roundtrip --messages %d --seed %d --out %s" % (b, 1500 if q else 60000, seed, out))
+        if prop in ("C02", "C04", "C10"):
+            c.append("%s/drive-codec vectors --out %s" % (b, out))
         if prop == "C02":
             c.append("%s/drive-codec msgtype --from-step %d --out %s" % (b, 5 if q else 1, out))
             c.append("%s/drive-codec ignorable --messages %d --variants %d --seed %d --out %s" % (
